@@ -66,7 +66,7 @@ def purity_worker(job):
 
     def run():
         net, names = nets.build(spec, nets.sym_valuer(), fluid=stubs.make_sym_fluid(is_gas))
-        net.user_pf_options = {"tol_p": 1e-6, "some_user_key": 3}
+        net.user_pf_options = {"tol_p": 1e-6, "some_user_key": 3, "iter": 30}
         holder["pristine"], _ = nets.build(spec, nets.sym_valuer(), fluid=None)
         holder["fluid_props"] = dict(net.fluid.all_properties)
         holder["std"] = copy.deepcopy({k: sorted(v.keys()) for k, v in net.std_types.items()})
@@ -102,7 +102,7 @@ def purity_worker(job):
     if ps.default_options != holder["defaults"]:
         viol.append(_pv(job, "default_options mutated", "default_options"))
     upo = {k: v for k, v in net.user_pf_options.items() if k != "hyd_flag"}
-    if upo != {"tol_p": 1e-6, "some_user_key": 3}:
+    if upo != {"tol_p": 1e-6, "some_user_key": 3, "iter": 30}:
         viol.append(_pv(job, "user_pf_options mutated: %r" % upo, "user_pf_options"))
     if dict(net.fluid.all_properties) != holder["fluid_props"]:
         viol.append(_pv(job, "fluid properties replaced", "fluid"))
@@ -123,7 +123,7 @@ def _pv(job, what, table, col=None):
 def replay_purity(rs):
     import pandas as pd
     net, _ = nets.build(rs["spec"], nets.concrete_valuer(rs.get("values", {})))
-    net.user_pf_options = {"tol_p": 1e-6, "some_user_key": 3}
+    net.user_pf_options = {"tol_p": 1e-6, "some_user_key": 3, "iter": 30}
     before = copy.deepcopy({k: v.copy() for k, v in net.items() if isinstance(k, str) and hasattr(v, "columns")
                             and not k.startswith("res_") and not k.startswith("_")})
     ok, err = concrete_pipeflow(net, use_numba=bool(rs.get("numba")), mode=rs.get("pfmode") or "hydraulics")
@@ -134,7 +134,7 @@ def replay_purity(rs):
         except AssertionError as e:
             changed.append("%s: %s" % (k, str(e).splitlines()[0][:100]))
     upo = {k: v for k, v in net.user_pf_options.items() if k != "hyd_flag"}
-    if upo != {"tol_p": 1e-6, "some_user_key": 3}:
+    if upo != {"tol_p": 1e-6, "some_user_key": 3, "iter": 30}:
         changed.append("user_pf_options %r" % upo)
     return bool(changed), {"changed": changed, "pipeflow_ok": ok}
 
